@@ -36,9 +36,11 @@ class JsonDeserializer {
 
     if (!err && variant.isFloat()) {
       // We don't detect trailing characters earlier, so we need to check now:
-      // a number must be followed by the end of the input or by a whitespace
+      // a number must be followed by the end of the input, by a whitespace,
+      // or by a comment
       const int c = latch_.last();
-      if (c != 0 && c != ' ' && c != '\t' && c != '\r' && c != '\n')
+      if (c != 0 && c != ' ' && c != '\t' && c != '\r' && c != '\n' &&
+          !(ARDUINOJSON_ENABLE_COMMENTS && c == '/'))
         return DeserializationError::InvalidInput;
     }
 
